@@ -321,7 +321,7 @@ REG.contract(P + "primary", returns="Expr", requires=WF, modifies=["self.current
 REG.contract(
     P + "finishcall", params={"expr": "Expr"}, returns="Expr", modifies=["self.current"], raises=RAISES, tags=TAGS,
     requires=WF + ["self.current >= 1", "self.tokens[self.current - 1].kind == 'LEFT_PAREN'"],
-    ensures=["isinstance(result, Call)", "result.callee == old(expr)",
+    ensures=["isinstance(result, Call)", "result.callee == expr",
              "args_covers(self.tokens, result.args, old(self.current))",
              "self.current == old(self.current) + args_size(self.tokens, result.args, old(self.current)) + 1",
              "self.tokens[self.current - 1].kind == 'RIGHT_PAREN'",
